@@ -23,7 +23,7 @@ def generate(R, tier):
                 yield {"stream": "empty-database", "lines": lines + [""] * _, "payload": msg.hex()}
     for _ in range(n):
         direction = R.choice(["request", "response"])
-        minor = R.choice([0, 1, 1])
+        minor = R.choice([0, 1, 1, 1, 0, 1, R.randint(2, 9)])     # HTTP/1.2 .. 1.9: read as that version, which only a `*` signature admits
         pool = R.sample(H.NAMES, R.randint(3, 8))
         if R.random() < 0.08:
             # header names beyond ASCII (sent as UTF-8): names are bytes, only A-Z / a-z fold - "\u00dc-Tag" is not "\u00fc-tag", U+212A is not "k"
